@@ -17,7 +17,7 @@ claimed = {
          'NARROW. Decides budget accounting only (budget minus appended chunk size, owner MTU gate, overhead from the raw key, forced break closes the pipe, canonical size boundaries, key of the next service info read independently of the remaining budget); losslessness/ordering over all sizes, splits and schedules are NOT decided.',
          'Trusts go/types+go/ssa.', 'DESIGN.md §2 C15'),
  'C16': ('must-pass dataflow for dispatch gates, all-paths search, linear forms over SSA values, path-sensitive boolean evaluation',
-         'NARROW. Decides the dispatch gates (Receive and Yield only when active, unknown modules answer, unread bodies are errors, Done only after IsDone, IsDone from NextModule after completion, the devmod writer's budget covers the message wrapper, no owner response can carry IsDone together with IsMoreServiceInfo, the chunk reader re-decodes its cached key with the raw key, the yield target follows the last received message); exactly-once in-order delivery across messages and schedules is NOT decided.',
+         'NARROW. Decides the dispatch gates (Receive and Yield only when active, unknown modules answer, unread bodies are errors, Done only after IsDone, IsDone from NextModule after completion, the budget of the devmod writer covers the message wrapper, no owner response can carry IsDone together with IsMoreServiceInfo, the chunk reader re-decodes its cached key with the raw key, the yield target follows the last received message); exactly-once in-order delivery across messages and schedules is NOT decided.',
          'Trusts go/types+go/ssa.', 'DESIGN.md §2 C16'),
 
  'C19': ('effect-confinement scans (global / receiver stores) over the wire-reachable call graph + lockset (guarded-by) dataflow with gen/kill on Lock/Unlock',
